@@ -35,6 +35,10 @@ type c18Case struct {
 	// Hangup: the peer closes the transport right behind its Close frame instead of
 	// waiting for the echo (only drawn when this side writes nothing itself).
 	Hangup bool
+	// MaxRead caps every transport read of the library (0 = none): frames, control frames
+	// included, arrive in pieces. Pings: the peer sends a Ping before each message.
+	MaxRead int
+	Pings   bool
 }
 
 var c18Sizes = []int{0, 0, 1, 2, 100, 125, 126, 4095, 4096, 4097, 20000, 65535, 65536, 70000}
@@ -57,8 +61,13 @@ func genC18(rt *rapid.T) c18Case {
 	c.Ending = rapid.SampledFrom([]string{"close-1000", "close-1001", "close-other", "transport-eof", "transport-reset", "wrong-type"}).Draw(rt, "ending")
 	c.Code = rapid.SampledFrom([]int{1002, 1008, 1011, 3000, 4999, -1}).Draw(rt, "otherCode")
 	c.WrongAt = rapid.IntRange(0, len(c.In)).Draw(rt, "wrongAt")
+	c.MaxRead = rapid.SampledFrom([]int{0, 0, 0, 1, 2, 7}).Draw(rt, "maxRead")
+	c.Pings = rapid.Bool().Draw(rt, "peerPings")
 	if len(c.Out) == 0 && strings.HasPrefix(c.Ending, "close-") {
 		c.Hangup = rapid.Bool().Draw(rt, "hangup")
+		if c.Hangup {
+			c.Pings = false // a Pong cannot be written to a peer that is gone: the Read that has to answer fails, rightly
+		}
 	}
 	return c
 }
@@ -93,6 +102,9 @@ func runC18Stream(t fataler, c c18Case) (string, c18Result) {
 		}
 	}
 	p.start(e)
+	if c.MaxRead > 0 {
+		lc.End.SetPeerMaxRead(c.MaxRead)
+	}
 	typ, op, wrongOp := websocket.MessageBinary, byte(ref.OpBinary), byte(ref.OpText)
 	if c.Text {
 		typ, op, wrongOp = websocket.MessageText, ref.OpText, ref.OpBinary
@@ -127,6 +139,9 @@ func runC18Stream(t fataler, c c18Case) (string, c18Result) {
 				break
 			}
 			pl := expand(ckRandom, uint64(i)+11, n)
+			if c.Pings {
+				p.send(ref.Frame{Fin: true, Opcode: ref.OpPing, Payload: []byte("ping!")})
+			}
 			sendMsg(i, pl, op)
 		}
 		switch c.Ending {
@@ -276,7 +291,7 @@ func runC18Stream(t fataler, c c18Case) (string, c18Result) {
 
 func TestC18(t *testing.T) {
 	rec := evid.For("C18")
-	rec.Rule = "stream: rapid draws inbound message sizes (0..70000, boundary-biased, fragmented, alternately compressed) against cycled Read buffer sizes (1..100000), Write sizes, message type, role/compression, and an ending {peer Close 1000, 1001, another code or empty - with the peer waiting for the echo or hanging up right behind its Close frame -, transport EOF, transport reset, a message of the wrong type at a drawn position}; deadlines: rapid-drawn scripts of SetReadDeadline/SetWriteDeadline/SetDeadline (past, future, zero) before, between and during calls on the fake clock. Non-trivial: a read buffer smaller than a message (message spans several reads), or an idle expiry followed by a reset and further traffic. distinct = hash of the case."
+	rec.Rule = "stream: rapid draws inbound message sizes (0..70000, boundary-biased, fragmented, alternately compressed, optionally each preceded by a Ping, the transport delivering at most 1/2/7 bytes per read or everything at once) against cycled Read buffer sizes (1..100000), Write sizes, message type, role/compression, and an ending {peer Close 1000, 1001, another code or empty - with the peer waiting for the echo or hanging up right behind its Close frame -, transport EOF, transport reset, a message of the wrong type at a drawn position}; deadlines: rapid-drawn scripts of SetReadDeadline/SetWriteDeadline/SetDeadline (past, future, zero) before, between and during calls on the fake clock. Non-trivial: a read buffer smaller than a message (message spans several reads), or an idle expiry followed by a reset and further traffic. distinct = hash of the case."
 	rapid.Check(t, func(rt *rapid.T) {
 		c := genC18(rt)
 		var msg string
@@ -305,6 +320,9 @@ type c18DL struct {
 	Steps  []c18Step
 	Final  string // active-read | active-write | none
 	FinalD time.Duration
+	// StallK > 0 (final reads only): the blocked Read sits in the middle of a frame header whose first
+	// StallK bytes arrived together with the message in front of it (a 70000-byte frame, so the header has 10 / 14 bytes)
+	StallK int
 }
 
 func genC18DL(rt *rapid.T) c18DL {
@@ -327,6 +345,9 @@ func genC18DL(rt *rapid.T) c18DL {
 	}
 	c.Final = rapid.SampledFrom([]string{"active-read", "active-write", "during-read-past", "during-read-future", "during-write-past", "during-write-future", "none"}).Draw(rt, "final")
 	c.FinalD = rapid.SampledFrom([]time.Duration{time.Millisecond, time.Second, 7 * time.Second}).Draw(rt, "finalD")
+	if strings.Contains(c.Final, "read") && rapid.Bool().Draw(rt, "stallInHeader") {
+		c.StallK = rapid.IntRange(1, 13).Draw(rt, "stallK")
+	}
 	return c
 }
 
@@ -472,6 +493,24 @@ func runC18DL(t fataler, c c18DL) (string, c18DLResult) {
 		e.sleep(time.Microsecond)
 	}
 	nc.SetDeadline(time.Time{})
+	if c.StallK > 0 {
+		first := ref.Frame{Fin: true, Opcode: ref.OpBinary, Payload: []byte("in front")}
+		next := ref.Frame{Fin: true, Opcode: ref.OpBinary, Payload: make([]byte, 70000)}
+		_, b0, _ := finishMasking([]ref.Frame{first}, c.Client)
+		_, b1, _ := finishMasking([]ref.Frame{next}, c.Client)
+		k := c.StallK
+		if hdr := len(b1) - 70000; k >= hdr {
+			k = hdr - 1
+		}
+		p.sendRaw(append(append([]byte(nil), b0...), b1[:k]...))
+		buf := make([]byte, 64)
+		var n int
+		var err error
+		d := e.Call(func() { n, err = nc.Read(buf) })
+		if !within(d, 10*time.Second) || err != nil || string(buf[:n]) != "in front" {
+			return fmt.Sprintf("the message in front of the stalled header was not delivered: %q, %v", buf[:n], err), res
+		}
+	}
 	switch c.Final {
 	case "active-read":
 		nc.SetReadDeadline(time.Now().Add(c.FinalD))
